@@ -7,6 +7,7 @@ import Holpy.C16.SimplexFuel
 import Holpy.C16.SimplexTermination
 import Holpy.C16.SimplexTrajectory
 import Holpy.C16.SimplexBland
+import Holpy.C16.SimplexCycle3
 import Holpy.C16.SimplexBBProofs
 /-
 C16 — property theorems about the model of `prover/simplex.py` (`Simplex`).  The model
@@ -65,7 +66,7 @@ theorem check_sat_sound (fuel : Nat) (s s' : SState) (hinv : Inv s) (h : check f
 /-- `Simplex.check()` answering UNSAT with `wrong_var = xi` (any fuel): the row equations together
 with the bounds have no rational solution — in the state it stopped in (the row of `xi` and the bounds
 of its variables are the Farkas-style explanation) and therefore in the state it started from.
-Termination is not proved: with too little fuel the model answers `fuel`, about which nothing is claimed. -/
+Stated for every fuel; that the answer `fuel` does not occur with fuel > `confBound s` is `check_terminates_bland`. -/
 theorem check_unsat_sound (fuel : Nat) (s s' : SState) (xi : Var) (hinv : Inv s) (h : check fuel s = (.unsat xi, s')) :
     ¬ ∃ w : Var → ℚ, RowsHold s.rows w ∧ ∀ x, InB s w x := by
   obtain ⟨_, l, u, r, _, hu⟩ := check_spec fuel s s' (.unsat xi) hinv h
@@ -84,13 +85,15 @@ private theorem exampleState_wf : WF exampleState := by
   · intro r hr; simp [exampleState] at hr; rcases hr with rfl | rfl <;> simp [DistinctVars, varsOf]
   · intro r hr x hx; simp [exampleState] at hr; rcases hr with rfl | rfl <;> simp [varsOf] at hx <;> rcases hx with rfl | rfl <;> decide
 
-example : Inv exampleSat := by
+private theorem exampleSat_inv : Inv exampleSat := by
   refine ⟨⟨exampleState_wf.heads, exampleState_wf.distinct, exampleState_wf.nonbasic⟩, ?_, ?_, ?_⟩
   · intro r hr; simp [exampleSat, exampleState] at hr; rcases hr with rfl | rfl <;> simp [exampleSat, exampleState, emptyState, evalJ]
   · intro x hx
     have hx0 : x ≠ 0 := by rintro rfl; revert hx; decide
     simp [InB, exampleSat, exampleState, emptyState, setQ, hx0]
   · intro x l u hl hu; simp [exampleSat, exampleState, emptyState] at hu
+
+example : Inv exampleSat := exampleSat_inv
 
 /-- `Simplex.handle_assertion()` running through all atoms (every `check()` answered SAT): the final
 `mapping` satisfies the row equations, every bound, hence every asserted atom `x ≥ c` / `x ≤ c`;
@@ -105,8 +108,8 @@ theorem handle_assertion_sat_sound (fuel : Nat) (s s' : SState) (atoms : List At
 
 /-- `Simplex.handle_assertion()` raising `UNSATException` (a `check()` answered UNSAT) or
 `AssertUpper/LowerException`: no rational assignment satisfies the row equations of the initial
-tableau, the bounds present at the start and the asserted atoms.  Fuel-bounded: the outcome `fuel`
-(`check` did not finish within the fuel) claims nothing. -/
+tableau, the bounds present at the start and the asserted atoms.  Stated for every fuel; every
+`check()` inside terminates (`check_terminates_bland`), so with enough fuel the outcome `fuel` does not occur. -/
 theorem handle_assertion_unsat_sound (fuel : Nat) (s : SState) (atoms : List Atom) (k : Nat) (tr tr' : List SState)
     (o : Outcome) (hinv : Inv s) (hall : ∀ x, InB s s.mapping x) (h : handleAssertion fuel s atoms k tr = (o, tr'))
     (ho : (∃ xi s', o = .unsat xi s') ∨ (∃ j s', o = .conflict j s')) :
@@ -137,9 +140,8 @@ theorem simplex_sat_sound (N fuel : Nat) (qs : List Ineq) (hin : InputOK N qs) (
   run_sat N fuel qs hin s' tr h
 
 /-- A whole run that ends in `UNSATException` (some `check()` answered UNSAT) or in an
-`AssertUpper/LowerException`: the given constraints have no rational solution.  Termination of
-`check` is not proved (the variable choice is not Bland's rule: the LAST violated basic variable is
-repaired); with too little fuel the model's outcome is `fuel`, about which nothing is claimed. -/
+`AssertUpper/LowerException`: the given constraints have no rational solution.  Stated for every
+fuel; every `check()` of the run terminates (`check_terminates_bland`). -/
 theorem simplex_unsat_sound (N fuel : Nat) (qs : List Ineq) (hin : InputOK N qs) (o : Outcome) (tr : List SState)
     (h : run fuel qs = (o, tr)) (ho : (∃ xi s', o = .unsat xi s') ∨ (∃ j s', o = .conflict j s')) :
     ¬ ∃ w : Var → ℚ, ∀ q ∈ qs, IneqHolds q w :=
@@ -197,9 +199,8 @@ example : bbTag (branchAndBound 20 10 [⟨.ge, [(100, 2)], 1⟩, ⟨.le, [(100, 
 
 /-- The answer of `Simplex.check()` in the model does not depend on the fuel once it is not `fuel`:
 so "check terminates on `s`" means exactly `∃ n, (check n s).1 ≠ .fuel`, and then every larger fuel
-gives the same verdict and state.  That such an `n` exists for every state (termination under
-Bland's rule, fix C16-5) is NOT proved in Lean; it is Dutertre–de Moura's theorem and is supported by
-the search of 1.4 million degenerate systems that found no cycle after the fix. -/
+gives the same verdict and state.  That such an `n` exists for every state with the tableau invariant
+(termination under Bland's rule, fix C16-5) is `check_terminates_bland` below. -/
 theorem check_fuel_independent (n k : Nat) (s : SState) (h : (check n s).1 ≠ .fuel) : check (n + k) s = check n s :=
   check_fuel_mono n k s h
 
@@ -223,19 +224,52 @@ occurs twice along the run of `check` from `s`, then `check` answers within `con
 theorem check_terminates_of_no_repeat (s : SState) (h : NoRepeat s) : (check (confBound s + 1) s).1 ≠ .fuel :=
   check_terminates_of_no_repeat_aux s h
 
-/-- THE remaining hypothesis about termination: under Bland's rule (fix C16-5, as modelled by `step`)
-no configuration repeats along a run of `check` from a state that satisfies the tableau invariant.
-(Dutertre–de Moura, CAV 2006: the largest variable that both enters and leaves the basis in a
-cycle yields a sign contradiction.)  NOT proved in Lean. -/
-def BlandNoRepeat : Prop := ∀ s : SState, Inv s → NoRepeat s
+/-- **Bland's rule does not cycle** (fix C16-5, as modelled by `step`): along a run of `check()` from a
+state that satisfies the tableau invariant no configuration occurs twice.  (Dutertre–de Moura's
+argument: the largest variable that both enters and leaves the basis between two equal configurations
+yields a sign contradiction between the row with which it enters and the state in which it leaves.) -/
+theorem check_no_repeat_bland (s : SState) (hinv : Inv s) : NoRepeat s :=
+  Simplex.bland_no_repeat s hinv
 
-/-- PARTIAL (exactly one statement is assumed: `BlandNoRepeat`): `check` terminates on every state
-satisfying the tableau invariant, within the explicit bound `confBound s + 1`; with
-`check_fuel_independent` every larger fuel gives the same answer, so under this hypothesis all simplex
-theorems hold without any fuel proviso. -/
-theorem check_terminates_bland_partial (hb : BlandNoRepeat) (s : SState) (hinv : Inv s) :
+/-- **`check()` terminates** on every state satisfying the tableau invariant, within the explicit
+bound `confBound s + 1` on the number of pivots, and every larger fuel gives the same answer: the
+fuel of the model is immaterial.  No hypothesis is left. -/
+theorem check_terminates_bland (s : SState) (hinv : Inv s) :
     (check (confBound s + 1) s).1 ≠ .fuel ∧ ∀ k, check (confBound s + 1 + k) s = check (confBound s + 1) s :=
-  ⟨check_terminates_of_no_repeat s (hb s hinv), fun k => check_fuel_mono _ k s (check_terminates_of_no_repeat s (hb s hinv))⟩
+  ⟨check_terminates_of_no_repeat s (check_no_repeat_bland s hinv),
+    fun k => check_fuel_mono _ k s (check_terminates_of_no_repeat s (check_no_repeat_bland s hinv))⟩
+
+/-- **Total correctness of `check()`**: from a state satisfying the tableau invariant, with any fuel
+above `confBound s`, `check` answers SAT with a `mapping` that satisfies the rows and every bound
+(tableau solutions and bounds unchanged), or UNSAT and rows + bounds have no rational solution. -/
+theorem check_total_correct (s : SState) (hinv : Inv s) :
+    ∃ vd s', (∀ k, check (confBound s + 1 + k) s = (vd, s')) ∧
+      ((vd = .sat ∧ RowsHold s'.rows s'.mapping ∧ (∀ x, InB s' s'.mapping x) ∧
+          (∀ w, RowsHold s'.rows w ↔ RowsHold s.rows w) ∧ s'.lo = s.lo ∧ s'.hi = s.hi) ∨
+       (∃ xi, vd = .unsat xi ∧ ¬ ∃ w : Var → ℚ, RowsHold s.rows w ∧ ∀ x, InB s w x)) := by
+  obtain ⟨hne, hk⟩ := check_terminates_bland s hinv
+  generalize hr : check (confBound s + 1) s = r at hne hk
+  obtain ⟨vd, s'⟩ := r
+  refine ⟨vd, s', hk, ?_⟩
+  cases vd with
+  | sat => exact Or.inl ⟨rfl, check_sat_sound _ s s' hinv hr⟩
+  | unsat xi => exact Or.inr ⟨xi, rfl, check_unsat_sound _ s s' xi hinv hr⟩
+  | fuel => exact absurd rfl hne
+
+example : Inv exampleSat ∧ Inv exampleUnsat := ⟨exampleSat_inv, by
+  refine ⟨⟨exampleState_wf.heads, exampleState_wf.distinct, exampleState_wf.nonbasic⟩, ?_, ?_, ?_⟩
+  · intro r hr; simp [exampleUnsat, exampleState] at hr; rcases hr with rfl | rfl <;> simp [exampleUnsat, exampleState, emptyState, evalJ]
+  · intro x hx
+    have hx0 : x ≠ 0 := by rintro rfl; revert hx; decide
+    simp only [InB, exampleUnsat, exampleState, emptyState, setQ, hx0, if_false]
+    constructor
+    · intro l hl; cases hl
+    · intro u hu; split at hu <;> (try split at hu) <;> simp_all
+  · intro x l u hl hu
+    simp only [exampleUnsat, setQ] at hl hu
+    split at hl
+    · subst_vars; simp at hu
+    · cases hl⟩
 
 -- on the example tableau with `s0 ≥ 1`: one repair step, then SAT; the two configurations differ, so `NoRepeat` holds
 example : (traj exampleSat 1).isSome = true ∧ (traj exampleSat 2).isNone = true ∧ confBound exampleSat = 4 ^ 6 := by decide +kernel
@@ -265,7 +299,7 @@ example : NoRepeat exampleSat := by
   exact this (by rw [← h1]; exact hc0)
 
 /-- Every state along a run of `check()` satisfies the tableau invariant and has the bounds and the
-row solutions of the state the run started from (an ingredient of the missing no-repeat argument). -/
+row solutions of the state the run started from (an ingredient of the no-repeat argument). -/
 theorem traj_preserves_inv (k : Nat) (s a : SState) (hinv : Inv s) (h : traj s k = some a) :
     Inv a ∧ a.lo = s.lo ∧ a.hi = s.hi ∧ ∀ w, RowsHold a.rows w ↔ RowsHold s.rows w :=
   traj_preserves k s a hinv h
@@ -278,10 +312,9 @@ theorem step_changes_only_entering (s s' : SState) (hinv : Inv s) (h : step s = 
       ∀ y, y ≠ xi → y ≠ xj → isBasic s y = false → s'.mapping y = s.mapping y :=
   step_values s s' hinv h
 
-/-- PARTIAL case of `BlandNoRepeat` (distance one): a repair step always changes the configuration —
-the leaving variable is basic before and non-basic after.  The general statement (no configuration
-repeats at ANY distance along the run) is the one hypothesis that remains unproved. -/
-theorem bland_no_repeat_adjacent_partial (s s' : SState) (hinv : Inv s) (h : step s = .next s') :
+/-- One repair step of `check()` always changes the configuration — the leaving variable is basic
+before and non-basic after (the distance-one case of `check_no_repeat_bland`, kept as a lemma of its own). -/
+theorem repair_step_changes_configuration (s s' : SState) (hinv : Inv s) (h : step s = .next s') :
     conf (allVars s) s ≠ conf (allVars s) s' :=
   step_changes_conf s s' hinv h
 
@@ -290,7 +323,7 @@ example : (match step exampleSat with | .next _ => true | _ => false) = true := 
 /-- Bland's rule, leaving side, as modelled (fix C16-5): the variable `check()` repairs is the
 smallest violated basic variable — every smaller basic variable is within its bounds.  (The entering
 side is `find_sorted_min`: the first suitable element of the row sorted by variable.)  Ingredient of
-the missing no-repeat argument. -/
+the no-repeat argument. -/
 theorem bland_leaving_is_smallest (s : SState) (xi : Var) (h : pickViolated s = some xi) :
     ∀ x, isBasic s x = true → x < xi → ltLo s x = false ∧ gtHi s x = false :=
   pickViolated_min s xi h
